@@ -8,22 +8,24 @@ fn key(s: &str) -> String {
     format!("{P}/{s}")
 }
 
-fn windows() -> Vec<[R; 6]> {
+fn windows(fine: bool) -> Vec<[R; 6]> {
     // (l, r, b, t, n, f): l < r, b < t, 0 < n < f, asymmetric
-    let ls: [R; 3] = [(-3, 1), (-1, 1), (1, 2)];
-    let ws: [R; 3] = [(1, 1), (5, 2), (4, 1)];
-    let bs: [R; 3] = [(-2, 1), (-1, 2), (1, 1)];
-    let hs: [R; 3] = [(1, 2), (3, 1), (7, 2)];
-    let ns: [R; 3] = [(1, 2), (1, 1), (3, 1)];
-    let ds: [R; 3] = [(1, 2), (2, 1), (7, 1)];
+    // (thorough: a fourth, fifth value per parameter - wide and narrow windows, planes far apart and close together)
+    let pick = |v: &[R]| -> Vec<R> { if fine { v.to_vec() } else { v[..3].to_vec() } };
+    let ls = pick(&[(-3, 1), (-1, 1), (1, 2), (-40, 1), (7, 3)]);
+    let ws = pick(&[(1, 1), (5, 2), (4, 1), (1, 16), (100, 1)]);
+    let bs = pick(&[(-2, 1), (-1, 2), (1, 1), (-25, 2), (9, 4)]);
+    let hs = pick(&[(1, 2), (3, 1), (7, 2), (1, 32), (60, 1)]);
+    let ns = pick(&[(1, 2), (1, 1), (3, 1), (1, 100), (10, 1)]);
+    let ds = pick(&[(1, 2), (2, 1), (7, 1), (1, 64), (1000, 1)]);
     let add = |a: R, b: R| -> R { (a.0 * b.1 + b.0 * a.1, a.1 * b.1) };
     let mut out = Vec::new();
-    for l in ls {
-        for w in ws {
-            for b in bs {
-                for h in hs {
-                    for n in ns {
-                        for d in ds {
+    for &l in &ls {
+        for &w in &ws {
+            for &b in &bs {
+                for &h in &hs {
+                    for &n in &ns {
+                        for &d in &ds {
                             out.push([l, add(l, w), b, add(b, h), n, add(n, d)]);
                         }
                     }
@@ -33,12 +35,12 @@ fn windows() -> Vec<[R; 6]> {
     }
     // every window over one small alphabet: all the coincidences between the six parameters (l = -r, b = l, t = r,
     // n = r, a border at 0 ...) that a fast path for "centred" or "square" windows would key on
-    let al: [i64; 6] = [-2, -1, 0, 1, 2, 3];
+    let al: Vec<i64> = if fine { (-4..=5).collect() } else { (-2..=3).collect() };
     for (li, l) in al.iter().enumerate() {
         for r in &al[li + 1..] {
             for (bi, b) in al.iter().enumerate() {
                 for t in &al[bi + 1..] {
-                    for (n, f) in [(1, 2), (2, 3), (1, 3)] {
+                    for (n, f) in if fine { vec![(1, 2), (2, 3), (1, 3), (1, 4), (2, 5), (3, 4), (4, 5)] } else { vec![(1, 2), (2, 3), (1, 3)] } {
                         out.push([(*l, 1), (*r, 1), (*b, 1), (*t, 1), (n, 1), (f, 1)]);
                     }
                 }
@@ -60,12 +62,12 @@ fn images<T: Tier>(m: Matrix4<T>, p: [T; 3]) -> ([T; 3], T, [T; 3]) {
 }
 
 fn boxes<T: Tier>(rep: &mut Report) {
-    let ws = windows();
+    let ws = windows(rep.thorough());
     let ws: Vec<[R; 6]> = ws;
     rep.cases(
         "ortho+frustum",
         T::NAME,
-        &format!("{} parameter tuples (l<r, b<t, n<f: 729 asymmetric ones and all 675 over the alphabet {{-2..3}} with 0<n, the rest with n<f<0 or n<0<f) x 27 probes of the box (ortho) and 18 of the near/far rectangles (frustum)", ws.len()),
+        &format!("{} parameter tuples (l<r, b<t, n<f: {} asymmetric ones and all over the alphabet {} with 0<n, the rest with n<f<0 or n<0<f) x 27 probes of the box (ortho) and 18 of the near/far rectangles (frustum)", ws.len(), if rep.thorough() { "5^6" } else { "3^6" }, if rep.thorough() { "{-4..5}" } else { "{-2..3}" }),
         ws.len(),
         Guard::states(100).distinct(100),
         |i, ctx| {
@@ -118,7 +120,7 @@ fn boxes<T: Tier>(rep: &mut Report) {
 /// zero or negative distance is as valid as any other, and the statement's map (l -> -1, r -> +1, ..., near -> -1,
 /// far -> +1) is the same affine formula
 fn ortho_unordered<T: Tier>(rep: &mut Report) {
-    let base: Vec<[R; 6]> = windows().into_iter().step_by(13).collect();
+    let base: Vec<[R; 6]> = windows(rep.thorough()).into_iter().step_by(13).collect();
     // bit k of the mask exchanges the k-th pair; variants 8..10 move the planes to zero / negative distances
     let nvar = 11;
     rep.cases(
@@ -179,14 +181,19 @@ fn ortho_unordered<T: Tier>(rep: &mut Report) {
 
 fn fov_cases<T: Tier + Dom<M = Sh>>(rep: &mut Report) {
     let fovs: Vec<f64> = if rep.quick() { (1..=15).map(|j| j as f64 * 0.2).collect() } else { (1..=155).map(|j| j as f64 * 0.02).collect() };
-    let aspects: [f64; 4] = [0.5, 1.0, 16.0 / 9.0, -1.0];
+    let mut aspects: Vec<f64> = vec![0.5, 1.0, 16.0 / 9.0, -1.0];
     // the last pair has the far plane nearer than the near plane (reversed depth): no stated precondition forbids it
-    let nf: [(f64, f64); 5] = [(0.5, 1.0), (1.0, 100.0), (0.1, 3.0), (3.0, 3.5), (3.0, 0.5)];
+    let mut nf: Vec<(f64, f64)> = vec![(0.5, 1.0), (1.0, 100.0), (0.1, 3.0), (3.0, 3.5), (3.0, 0.5)];
+    if rep.thorough() {
+        // common and uncommon screen shapes, every quarter up to 3; planes far apart, close together, large, small
+        aspects.extend([4.0 / 3.0, 1.25, 1.6, 1.7, 1.75, 1.85, 21.0 / 9.0, 2.39, 3.0, 0.25, 0.5625, 0.75, 10.0, 0.01]);
+        nf.extend([(0.01, 1000.0), (1.0, 1.0009765625), (100.0, 1e5), (1e-3, 2e-3), (2.5, 40.0), (1.0, 1e7), (7.0, 11.0)]);
+    }
     let dims = [fovs.len(), aspects.len(), nf.len(), 2];
     rep.cases(
         "perspective",
         T::NAME,
-        &format!("{} fovy values x 4 aspects x 5 (near, far) pairs (one reversed), in Rad and in Deg", fovs.len()),
+        &format!("{} fovy values x {} aspects x {} (near, far) pairs (one reversed), in Rad and in Deg", fovs.len(), aspects.len(), nf.len()),
         alphabet::product_len(&dims),
         Guard::states(50).distinct(50),
         |i, ctx| {
@@ -246,7 +253,7 @@ fn fov_cases<T: Tier + Dom<M = Sh>>(rep: &mut Report) {
     rep.cases(
         "planar",
         T::NAME,
-        &format!("{} fovy values (negative, zero, positive) x 4 aspects x 3 heights x 5 (near, far) pairs (reversed, straddling the origin, behind it), in Rad and in Deg", fovs.len()),
+        &format!("{} fovy values (negative, zero, positive) x {} aspects x 3 heights x 5 (near, far) pairs (reversed, straddling the origin, behind it), in Rad and in Deg", fovs.len(), aspects.len()),
         alphabet::product_len(&dims),
         Guard::states(50).distinct(30).need("judged", 30),
         |i, ctx| {
